@@ -12,6 +12,7 @@ PROPS["C11"] = {
     "level_text": "Theorems (Props/C11.v) about the SetUint16/Uint16 functions regenerated from dataidentifier.go on every run, proved by complete kernel sweeps of the 16-bit domain; an exhaustive 65536-value correspondence ties them and the packet accessors to the compiled code. A finite domain enumerated completely inside the kernel is a proof for the whole quantifier.",
     "level_note": "Trusted: Coq kernel + vm_compute, the translator's rendering of Go integer expressions, the harness. No axioms.",
     "technique": "Rocq proof by complete vm_compute sweep over translator-generated Gallina + exhaustive correspondence",
+    "tie_files": ["Tie/BytesAgree.v"],
     "props_file": "Props/C11.v",
     "eval_module": "Run.EvalC11",
     "kinds": {"id16": {"type": "case_id16", "chk": "chk_id16", "sig": "sig_id16", "scope": "Z_scope"}},
@@ -208,7 +209,7 @@ PROPS["C12"] = {
     "level_note": "Trusted: Coq kernel + vm_compute; the translator (expressions, switch tables, layouts); 'binary.Read accepts iff the data has at least the value's size' (encoding/binary); the protocol table transcribed in Spec/LayoutSpec.v; harness. No axioms.",
     "technique": "Rocq proof by complete vm_compute sweep over translator-generated Gallina tables + exhaustive correspondence",
     "props_file": "Props/C12.v",
-    "tie_files": ["Tie/LayoutsAgree.v"],
+    "tie_files": ["Tie/BytesAgree.v", "Tie/LayoutsAgree.v"],
     "eval_module": "Run.EvalSizes",
     "kinds": {"size": {"type": "case_size", "chk": "chk_size", "sig": "sig_size", "scope": "Z_scope"}},
     "exhaustive": True,
